@@ -79,3 +79,18 @@ func init() {
 		}, stubCommon...),
 	}
 }
+
+func init() {
+	cfgs["C15"] = &propCfg{
+		Workers: map[string]int{"pristine": 9, "instr": 7},
+		QuickS:  35, ThorS: 600,
+		Real: []string{"Transfer.In (preset Conn), inAxfr, inIxfr, Transfer.ReadMsg/WriteMsg", "Transfer.Out + Server + response.WriteMsg/TsigTimersOnly (sender 'out')", "TsigGenerateWithProvider / TsigVerifyWithProvider", "Conn.Read/Write framing", "Msg.Pack/Unpack"},
+		Stub: append([]string{"sender 'scripted': a harness task that packs envelopes with Msg.Pack and signs them with the independent RFC 8945 signer (oracle/tsig.go)", "the middlebox: a harness task pair with its own frame parser"}, stubCommon...),
+		Rule: "A run = one transfer session: AXFR, incremental IXFR with 1..3 difference sequences, AXFR-style IXFR or the single-SOA 'up to date' answer, 0..60 records, a composition of the record sequence into envelopes (one record per envelope, all in one, or random cuts), sender = real Server+Transfer.Out or scripted, with or without TSIG (five HMAC algorithms, mixed-case algorithm names, fudge 1..300), then either benign link behaviour (segmentation, short reads, delay) or faults: middlebox drop/dup/swap/bit-flip by region/ID rewrite/RCODE rewrite/un-sign/re-sign with another key/stall/delay across the fudge boundary, stream cut by EOF or RST at any octet, scripted non-SOA first record, error RCODE in any envelope, wrong ID, trailing envelope. Non-trivial = every run. Distinct = distinct trace digest per build.",
+		Assume: append([]string{
+			"the reference for 'what reached the receiver' is the harness's Unpack of the octets the middlebox forwarded; termination is judged by oracle/xfr.go, TSIG validity of each delivered envelope by oracle/tsig.go (independent of the library)",
+			"delivered sequences outside what the RFCs define (closing SOA inside an envelope after duplication, NOTAUTH rcode, non-canonical key-name case) are not judged beyond termination, closure and no panic",
+			"serial wrap-around is not exercised",
+		}, stubCommon...),
+	}
+}
